@@ -58,6 +58,12 @@ CLAIMED = {
          "PNG/XPM/PPM whole-page identity and real iconv are outside.", "5 C16"),
  "C17": ("PARTLY: the walk/stop/termination logic of vbi_search_next / search_page_fwd / search_page_rev with an abstract matcher over a symbolic universe of pages (start page, direction per call, cache membership per call symbolic) against an order oracle, "
          "and literal pattern escaping. The regular expression engine (ure.c), haystack construction and highlighting are outside (no verdict / not encodable - see DESIGN).", "5 C17"),
+ "C18": ("Step contracts over an explicit queue invariant (every queued frame referenced exactly by the clients whose cursor is at or before it, cursors inside the queue, no buffer both queued and free, "
+         "no cursor on a closed device) from symbolic invariant states of up to 3 clients / 3 buffers: capture (vbi_proxyd_forward_data incl. queue overflow: frame appended once with exact reference count, lines, time stamp; "
+         "only the oldest frame dropped), delivery (send_sliced + release_sliced: the message is exactly the frame at that client's cursor, filtered to its granted services, in line order, byte for byte, with the capture time stamp), "
+         "service requests (device asked for the union of requests, grants are subsets, device open iff something granted); plus SEQ runs of up to 8 daemon events on a grid of schedules (capture, writable, disconnect, "
+         "SERVICE_REQ, revocation, shutdown) through the real handlers and the REAL vbi_proxyd_main_loop with a scripted select(), frame payloads symbolic, against a shadow model: every frame captured while subscribed exactly once, "
+         "in order, filtered; a stalled client costs the others nothing. Raw services, the acquisition thread, partial writes and more than 3 clients are outside.", "0.3 C18"),
  "C19": ("Message framing for arbitrary client byte streams in arbitrary chunks; one step of the daemon's event loop from every connection I/O state; check_msg + take_message on a fully symbolic message in every connection state from an arbitrary daemon state satisfying a stated invariant "
          "(all safety checks and assert()s of the real proxyd.c / proxy-msg.c, rejected message changes nothing else); token exclusivity as inductive step over 3 clients for every token message and the scheduler timer; disconnect from every state releases queue references and the token.", "5 C19"),
 }
@@ -65,7 +71,7 @@ NA = {
  "C20": "quantifier is thread schedules: goto-instrument --race-check crashes on struct-member shared state and cbmc's thread support aborts ('pointer handling for concurrency is unsound') on the real functions; "
         "no other engine is installed; lock discipline is checked sequentially inside other properties' harnesses (DESIGN section 5 C20)",
 }
-READY = ["C02", "C04", "C05", "C06", "C07", "C08", "C10", "C11", "C12", "C13", "C14", "C15", "C16", "C17", "C19"]   # properties whose quick check is known to pass on the unchanged tree
+READY = ["C02", "C04", "C05", "C06", "C07", "C08", "C10", "C11", "C12", "C13", "C14", "C15", "C16", "C17", "C18", "C19"]   # properties whose quick check is known to pass on the unchanged tree
 
 def main():
     props = [json.loads(l)["id"] for l in open(os.path.join(HERE, "properties.jsonl"))]
